@@ -899,7 +899,7 @@ SpecCorpus == Init /\ [][NextCorpus]_vars
 \* transition corpus: one line per TRANSITION (also those into a state BFS has already seen), i.e. the first-found
 \* history of every state extended by every call enabled there. "snapshot, import, commit" ends in the same state as
 \* "import, commit" and is in no first-found history; it is in this corpus.
-Emit_Trans == Len(ops') <= MaxOps => PrintT(<<"CORPUS", ToJson([ops |-> ops', obs |-> Obs(mem'), dev |-> dev'])>>)
+Emit_Trans == Len(ops') <= MaxOps + Len(AllSeedOps) => PrintT(<<"CORPUS", ToJson([ops |-> ops', obs |-> Obs(mem'), dev |-> dev'])>>)
 NextCorpusT == NextG /\ Emit_Trans
 SpecCorpusT == Init /\ [][NextCorpusT]_vars
 \* restart-focused corpus: only the states reached by a Reopen are emitted (histories ending in a restart)
